@@ -150,7 +150,9 @@ def outcome_edges(body, call_blk, max_steps=40):
             p = op_place(a0) if a0 else None
             name = callee(tt)
             if p is not None and len(p) == 1 and p[0] in tracked and len(tt["dest"]) == 1:
-                if _PASS.search(name):
+                if _PASS.search(name) or (re.search(r"result::Result(<.*>|::<.*>)?::or$", name) and len(tt["args"]) == 2 and any(
+                        og[0] == "rv" and og[1][0] == "agg" and og[1][1].get("variant") == "Err" for og in local_origins(body, tt["args"][1]))):
+                    # `r.or(Err(x))` keeps the outcome of r
                     kd = _kind_of_ty(body.local_ty(tt["dest"][0])) or tracked[p[0]]
                     tracked[tt["dest"][0]] = kd
                 elif _BOOL_OK.search(name):
